@@ -20,6 +20,12 @@ structure Cfg where
   deadlineGe : Bool         -- the check is `_timer() >= stop_at` (true) / `>` (false)
   validateNonNeg : Bool     -- `Process.wait`: `timeout is not None and not timeout >= 0` raises ValueError
   sliceN : Nat              -- `wait_procs`: `max_timeout = 1.0 / len(alive)`
+  -- (extension) front ends around the loops; the defaults are the shape of the source the proofs were made on
+  pidCheck : Bool := true           -- `wait_pid` starts with `if pid <= 0: raise ValueError`
+  cbCheck : Bool := true            -- `wait_procs`: `callback is not None and not callable(callback)` raises TypeError before any wait
+  popenRcFirst : Bool := true       -- `Popen.wait` starts with `if self.__subproc.returncode is not None: return …`
+  popenStoresRc : Bool := true      -- `Popen.wait`: `self.__subproc.returncode = ret` after `super().wait(timeout)`
+  popenValidateFirst : Bool := false -- `Popen.wait` rejects a negative timeout BEFORE looking at the stored returncode
 
 def Cfg.i0 (c : Cfg) : Rat := (c.i0n : Rat) / (c.i0d : Rat)
 def Cfg.cap (c : Cfg) : Rat := (c.capn : Rat) / (c.capd : Rat)
@@ -318,5 +324,67 @@ def waitProcs (cfg : Cfg) (envOf : Nat → Env) (procs : List Nat) (timeout : Op
       match whileN cfg envOf hasCb fuel order fuel alive w with
       | .error o => .error o
       | .ok (w', alive') => lastAttempt cfg envOf hasCb fuel order alive' w'
+
+/-! ## `wait_procs`: the argument checks in front of the loops -/
+
+/-- the `callback` argument -/
+inductive Cb
+  | absent          -- `None`
+  | callable
+  | notCallable     -- anything else
+  deriving DecidableEq, Repr
+
+/-- what can come out of `wait_procs` instead of the two lists -/
+inductive WPErr
+  | typeError                 -- `TypeError` (callback is not a callable)
+  | out (o : Outcome)         -- an exception escaping from a `proc.wait()` / the timeout validation
+  deriving DecidableEq, Repr
+
+/-- `wait_procs(procs, timeout, callback)` from its first line: the timeout validation comes first,
+    then `set(procs)`, then the callable test — all before `_timer()` is read or any process is
+    waited for -/
+def waitProcsFront (cfg : Cfg) (envOf : Nat → Env) (procs : List Nat) (timeout : Option Rat)
+    (cb : Cb) (order : Nat → List Nat → List Nat) (fuel : Nat) (w : WP) :
+    Except WPErr (WP × List Nat) :=
+  if negative timeout then .error (.out .valueError)
+  else if cfg.cbCheck && cb == .notCallable then .error .typeError
+  else
+    match waitProcs cfg envOf procs timeout (cb != .absent) order fuel w with
+    | .error o => .error (.out o)
+    | .ok r => .ok r
+
+/-! ## `psutil.Popen.wait` (psutil's wrapper only; `subprocess.Popen` is CPython's) -/
+
+structure PopenObj where
+  proc : PObj                 -- the `psutil.Process` part (`_exitcode` cache …)
+  subRc : Option Int          -- `self.__subproc.returncode` (`none` = `None`)
+  deriving DecidableEq, Repr
+
+structure PopenRes where
+  out : Outcome
+  now : Rat
+  sleeps : List Rat
+  obj : PopenObj
+
+/-- `subprocess`'s own `poll()`/`wait()`/`communicate()` reaped the child and stored `c` -/
+def PopenObj.extSet (q : PopenObj) (c : Int) : PopenObj := { q with subRc := some c }
+
+/-- `Popen.wait(timeout)` at instant `now`:
+      if self.__subproc.returncode is not None: return self.__subproc.returncode
+      ret = super().wait(timeout); self.__subproc.returncode = ret; return ret -/
+def popenWait (cfg : Cfg) (env : Env) (timeout : Option Rat) (fuel : Nat) (now : Rat) (q : PopenObj) :
+    PopenRes :=
+  if cfg.popenValidateFirst && negative timeout then ⟨.valueError, now, [], q⟩
+  else
+    match (if cfg.popenRcFirst then q.subRc else none) with
+    | some c => ⟨.code c, now, [], q⟩
+    | none =>
+      let r := procWait cfg env timeout fuel now q.proc
+      let rc := if cfg.popenStoresRc then
+                  (match r.out.value? with
+                   | some v => v            -- returned: `returncode = ret` (None stays None)
+                   | none => q.subRc)       -- raised: the assignment is not reached
+                else q.subRc
+      ⟨r.out, r.now, r.sleeps, ⟨r.obj, rc⟩⟩
 
 end Psutil.C15
